@@ -6,6 +6,7 @@ import (
 	"io"
 	"strings"
 
+	"github.com/freeconf/yang/fc"
 	"github.com/freeconf/yang/meta"
 	"github.com/freeconf/yang/node"
 	"github.com/freeconf/yang/patch/xml"
@@ -73,12 +74,34 @@ func (x *XmlNode) Child(r node.ChildRequest) (node.Node, error) {
 		// The XML elements representing list entries MAY be interleaved with elements
 		// for siblings of the list
 		for ndx >= 0 {
+			if err := x.Nodes[ndx].checkNotText(r.Meta); err != nil {
+				return nil, err
+			}
 			found = append(found, x.Nodes[ndx])
 			ndx = x.Find(ndx+1, r.Meta)
 		}
 		return &XmlNode{XMLName: x.XMLName, Nodes: found}, nil
 	}
+	if err := x.Nodes[ndx].checkNotText(r.Meta); err != nil {
+		return nil, err
+	}
 	return x.Nodes[ndx], nil
+}
+
+// the element of a container or list item holds elements, not just text
+func (x *XmlNode) checkNotText(m meta.Definition) error {
+	if len(x.Nodes) == 0 && x.ContentTrim() != "" {
+		return fmt.Errorf("%w. %s expects elements, found text", fc.BadRequestError, m.Ident())
+	}
+	return nil
+}
+
+// the element of a leaf holds text, not elements
+func (x *XmlNode) checkText(m meta.Definition) error {
+	if len(x.Nodes) > 0 {
+		return fmt.Errorf("%w. %s is a leaf, found elements", fc.BadRequestError, m.Ident())
+	}
+	return nil
 }
 
 func (x *XmlNode) Next(r node.ListRequest) (node.Node, []val.Value, error) {
@@ -108,6 +131,9 @@ func (x *XmlNode) Next(r node.ListRequest) (node.Node, []val.Value, error) {
 				sval, valid := target.field(kmeta)
 				if !valid {
 					return nil, nil, fmt.Errorf("key '%s' missing from %s", kmeta.Ident(), r.Path)
+				}
+				if err := target.Nodes[target.Find(0, kmeta)].checkText(kmeta); err != nil {
+					return nil, nil, err
 				}
 				v, err := node.NewValue(kmeta.Type(), sval)
 				if err != nil {
@@ -155,11 +181,17 @@ func (x *XmlNode) Field(r node.FieldRequest, hnd *node.ValueHandle) error {
 		// The XML elements representing list entries MAY be interleaved with elements
 		// for siblings of the list
 		for ndx >= 0 {
+			if err = x.Nodes[ndx].checkText(r.Meta); err != nil {
+				return err
+			}
 			found = append(found, x.Nodes[ndx].leafContent(r.Meta))
 			ndx = x.Find(ndx+1, r.Meta)
 		}
 		hnd.Val, err = node.NewValue(r.Meta.Type(), found)
 	} else {
+		if err = x.Nodes[ndx].checkText(r.Meta); err != nil {
+			return err
+		}
 		hnd.Val, err = node.NewValue(r.Meta.Type(), x.Nodes[ndx].leafContent(r.Meta))
 	}
 	return err
